@@ -69,3 +69,25 @@ def _c01_pi_zero_cycle(v, rec):
         return bool(f.get("below_opt"))
     return c in ("suboptimal-action-in-policy", "returned-policy-not-optimal",
                  "optimal-action-missing-from-policy")
+
+
+@mechanism("C06-stray-absorbing-successor-outside-list")
+def _c06_stray(v, rec):
+    """KeyError from an array builder whose key is a positive-probability successor of a flagged
+    absorbing state that is not otherwise reachable (in closure-with-absorbing-expanded minus the
+    inferred list)."""
+    f = v.get("facts", {})
+    if not v["clause"].startswith("exception:") or f.get("exc_type") != "KeyError":
+        return False
+    if not any("tabularmdp.py" in w for w in f.get("where", [])):
+        return False
+    outside = f.get("outside_list_but_reachable_via_absorbing") or []
+    return any(f.get("exc_msg") == o for o in outside)
+
+
+@mechanism("C06-initial-absorbing-state-expanded")
+def _c06_init_abs(v, rec):
+    """Inferred state list = closure plus exactly the states reachable only by expanding an
+    *initial* absorbing state."""
+    f = v.get("facts", {})
+    return v["clause"] == "inferred-state_list!=closure" and bool(f.get("extra_only_from_initial_absorbing"))
